@@ -465,7 +465,7 @@ def rule_x(repo, run):
                            "per name (grouping of overloads, C18.R2)")
     from checks import c05, c18
     from sa.report import import_rules
-    import_rules(run, R, c05, repo, {"C05.R11"})
+    import_rules(run, R, c05, repo, {"C05.R11"}, only=lambda c: c.startswith("wrapf."))
     import_rules(run, R, c18, repo, {"C18.R2"}, only=lambda c: "wrap_functions" in c)
 
 
